@@ -197,6 +197,8 @@ def run_schedule(acc, pool, gold, sched, base_inp):
             except BaseException as e:  # compute() catches Exception; anything else is the harness' problem
                 res = {"ok": False, "exc": "HARNESS:" + type(e).__name__, "msg": str(e)[:200]}
             records.append((idx, j, t0, clock(), res))
+            if sched.get("until_thread0_done") and idx != 0:
+                time.sleep(0.003)  # a client pauses between its calls: periods in which only the long call is running
         if idx == 0:
             done0.set()
 
@@ -285,7 +287,7 @@ def run_shard(shard, acc, forced=None):
             return
         for s in range(shard["schedules"]):
             # (every shard has one schedule around the deeply nested script and one around the script with hundreds of routines)
-            sched = gen_schedule(rnd, pool, force={1: "deep", 2: "big", 3: "deep"}.get(s))
+            sched = gen_schedule(rnd, pool, force={0: "deep", 1: "deep", 2: "big"}.get(s))
             if s == 0:
                 sched["cold"] = False  # the very first schedule of the process has genuinely cold caches anyway
             acc.announce("schedule", {"threads": len(sched["threads"]), "style": sched["style"]})
